@@ -137,7 +137,7 @@ class ListMonitor:
         self._pre = {
             "view": view, "uuids": uu, "kids": [k for k, _ in kids], "spanning": spanning, "root_victim": root_victim,
             "snap": ol.tree_snapshot(model._loader),
-            "hashes": ol.frag_hashes(model._loader) ,
+            "hashes": ol.frag_hashes(model._loader), "index": ol.index_dump(model._loader),
             "interleaved": interleaved([k for k, _ in kids], view),
         }
 
@@ -169,6 +169,8 @@ class ListMonitor:
             if h1 != pre["hashes"]:
                 why = "|member-is-fragment-root" if (pre.get("root_victim") and rec.outcome == "AssertionError") else ""
                 self.find(rec, f"rejected-op-changed-model|{kind}|{st.op}{why}", f"{st.op} raised {rec.outcome} but fragments {[f for f in h1 if h1[f] != pre['hashes'].get(f)]} changed")
+            elif ol.index_dump(loader) != pre["index"]:
+                self.find(rec, f"rejected-op-changed-index|{kind}|{st.op}", f"{st.op} raised {rec.outcome}; the files are as before but the id/type indexes differ")
             # … and Python would have accepted it?  (IndexError where a list clamps)
             if st.op == "insert" and rec.outcome == "IndexError":
                 self.find(rec, f"insert-index-rejected|{kind}|{ic}", f"insert({i}, x) on a list of {n} raised IndexError; a Python list clamps the index")
@@ -185,6 +187,9 @@ class ListMonitor:
             if len(new) != 1 or fresh != pre["uuids"] + new:
                 self.find(rec, f"create-not-appended|{kind}", f"after create the fresh view is {fresh[-3:]} (before: {pre['uuids'][-3:]})")
             self.frame(rec, model, pre, kind, allowed_new=True)
+            return
+        if st.op == "assign_dup":
+            self.find(rec, f"unique-accepts-duplicate|{kind}|assign", "assigning a sequence with a duplicate member to a uniqueness-enforcing relation was accepted")
             return
         if st.op in ("insert", "append", "setitem", "delitem", "remove", "clear", "assign"):
             if st.op in ("insert", "append") and x_uuid in pre["uuids"] and getattr(st.rel.acc, "unique", False):
@@ -442,6 +447,63 @@ def unique_scenarios(ctx: Ctx, out: Outcome, key: str, limit: int):
             break
 
 
+def shared_tag_scenarios(ctx: Ctx, out: Outcome, key: str, limit: int):
+    """Link-element relations of one class that store their links under the SAME XML tag (told apart by xsi:type):
+    re-assigning or deleting one of them must leave the sibling relations exactly as they were."""
+    model = ol.load(ctx, key)
+    rng = random.Random(f"c08s:{ctx.seed}:{key}")
+    rels = [r for r in objops.discover(model, rng, max_objs=ctx.pick(400, 1200)) if type(r.acc).__name__ == "LinkAccessor" and getattr(r.acc, "tag", None)]
+    by_owner: dict = {}
+    for r in rels:
+        by_owner.setdefault(id(r.owner._element), []).append(r)
+    n = 0
+    for group in by_owner.values():
+        tags: dict = {}
+        for r in group:
+            tags.setdefault(r.acc.tag, []).append(r)
+        for tag, rs in tags.items():
+            if len(rs) < 2:
+                continue
+            try:
+                views = {r.attr: ol.uuids(r.get()) for r in rs}
+            except Exception:  # noqa: BLE001
+                continue
+            if sum(1 for v in views.values() if v) < 2:
+                continue
+            r = rng.choice([x for x in rs if views[x.attr]])
+            for label, fn in (("assign-same-members", lambda r=r: setattr(r.owner, r.attr, list(r.get()))),
+                              ("delete-relation", lambda r=r: delattr(r.owner, r.attr))):
+                try:
+                    fn()
+                    outcome = "ok"
+                except Exception as e:  # noqa: BLE001
+                    outcome = type(e).__name__
+                n += 1
+                out.case(("shared-tag", key, type(r.owner).__name__, r.attr, label, outcome),
+                         {"model": key, "owner": type(r.owner).__name__, "relation": r.attr, "tag": tag, "op": label, "outcome": outcome})
+                out.hit(f"shared-tag.{label}.{outcome}")
+                for sib in rs:
+                    if sib is r:
+                        continue
+                    try:
+                        now = ol.uuids(sib.get())
+                    except Exception as e:  # noqa: BLE001
+                        now = f"!{type(e).__name__}"
+                    if now != views[sib.attr]:
+                        out.find(f"side-effect|LinkAccessor|{label}|sibling-relation-with-same-tag",
+                                 f"{key}: {label} on {type(r.owner).__name__}.{r.attr} changed {sib.attr} (same XML tag {tag}): {short(views[sib.attr])} -> {short(now) if isinstance(now, list) else now}",
+                                 {"kind": "shared-tag", "model": key, "failure": f"side-effect|LinkAccessor|{label}|sibling-relation-with-same-tag"})
+                if label == "assign-same-members" and outcome == "ok":
+                    try:
+                        if ol.uuids(r.get()) != views[r.attr]:
+                            out.find(f"fresh-view-differs|LinkAccessor|{label}", f"{key}: re-assigning {r.attr} to its own members changed it",
+                                     {"kind": "shared-tag", "model": key, "failure": f"fresh-view-differs|LinkAccessor|{label}"})
+                    except Exception:  # noqa: BLE001
+                        pass
+            if n >= limit:
+                return
+
+
 def run(ctx: Ctx) -> Outcome:
     import os
 
@@ -456,6 +518,7 @@ def run(ctx: Ctx) -> Outcome:
             S.run_history(ctx, out, key, ns, [ListMonitor(out, ctx, req, impl, meta), ReloadMonitor(out, ctx)], weights=W, hist_id=h)
     for key in (["t52", "t50", "write"] if ctx.thorough else ["t50"]):
         unique_scenarios(ctx, out, key, ctx.pick(6, 30))
+        shared_tag_scenarios(ctx, out, key, ctx.pick(6, 30))
     # model-only sweep: every index on synthetic child lists (also covered by the theorems)
     rng = random.Random(f"c08:{ctx.seed}")
     for _ in range(ctx.pick(300, 3000)):
@@ -489,6 +552,8 @@ def replay(ctx: Ctx, case: dict):
                   [ListMonitor(out, ctx, [], [], []), ReloadMonitor(out, ctx)], weights=W, hist_id=case["hist"])
     if case.get("kind") == "unique":
         unique_scenarios(ctx, out, case["model"], 30)
+    if case.get("kind") == "shared-tag":
+        shared_tag_scenarios(ctx, out, case["model"], 30)
     for f in out.findings:
         if f.signature == case.get("failure"):
             return f.what
